@@ -168,7 +168,10 @@ static void mutate(int w, int j, uint64_t kind, uint64_t param) {
   case F_VARIANT: {
     Variant& v = V(p);
     Val child; child.t = (param % 2) ? Val::STR : Val::INT; child.s = gs; child.i = (long)(param % 1000);
-    switch (kind % 7) {
+    switch (kind % 8) {   // (assigning a *container* taken from inside the own payload, v = v.toMap()[k].toMap(), is caller misuse as for any container and is not generated)
+    case 7: { // assign from a handle that lives inside the own payload (e.g. walking down a tree): v = v.toList().front()
+      if ((m.t == Val::LIST || m.t == Val::ARR || m.t == Val::MAP) && !m.kids.empty()) { const Variant& cv = v; if (m.t == Val::LIST) v = cv.toList().front(); else if (m.t == Val::ARR) v = cv.toArray()[0]; else v = *cv.toMap().begin(); Val c = m.kids[0].second; m = c; probe("assign_from_nested_handle"); }
+      break; }
     case 0: { std::string key; { Host h; key = "k" + std::to_string(++C.uniq); } v.toMap().append(mkString(key), mkVariant(child)); if (m.t != Val::MAP) { m = Val(); m.t = Val::MAP; } m.kids.push_back({key, child}); break; }
     case 1: v.toList().append(mkVariant(child)); if (m.t != Val::LIST) { m = Val(); m.t = Val::LIST; } m.kids.push_back({"", child}); break;
     case 2: v.toArray().append(mkVariant(child)); if (m.t != Val::ARR) { m = Val(); m.t = Val::ARR; } m.kids.push_back({"", child}); break;
@@ -190,7 +193,11 @@ static void mutate(int w, int j, uint64_t kind, uint64_t param) {
     break; }
   case F_PTR: {
     P& q = PT(p);
-    switch (kind % 5) {
+    switch (kind % 6) {
+    case 5: { // advance along the chain in handle form: q = q->next (the right-hand handle lives inside the object being released)
+      int nxt = -1; if (m.t == Val::OBJ) { Host h; nxt = C.nextId[m.i]; }
+      if (nxt >= 0) { q = q->next; m.i = nxt; probe("chain_advanced_handle_form"); }
+      break; }
     case 0: { int id; { Host h; id = C.nobj < MAXOBJ ? C.nobj++ : -1; } if (id >= 0) { q = new Obj(id); m = Val(); m.t = Val::OBJ; m.i = id; } break; }
     case 1: q = (Obj*)0; m = Val(); break;
     case 2: { Obj* raw = q ? &*q : 0; q = raw; break; }   // re-assign own raw pointer
